@@ -19,3 +19,9 @@ Fixpoint h_sepb (l : list rng) : bool :=
 Definition h_sorted (c : vc) : bool := h_sepb (flatten c).
 (* no member is degenerate: its allowed maximum is not below its own minimum ('>=2.0.dev1,<2.0' is; the parser returns empty for it) *)
 Definition h_nondeg (c : vc) : bool := forallb (fun r => negb (is_strictly_lower r r)) (flatten c).
+(* the bounds mentioned by two operands are mutually regular: any two of them are equal or of different release classes (epoch and
+   zero-padded release); hypothesis of the difference theorems (Proofs/DiffUnion.v) *)
+Definition h_cbounds (c : vc) : list version := flat_map h_rbounds (flatten c).
+Definition h_regular1 (v e : version) : bool := veqb v e || negb (is_eq (rcmp v e)).
+Definition h_mutual (a b : vc) : bool :=
+  let B := (h_cbounds a ++ h_cbounds b)%list in forallb (fun e => forallb (h_regular1 e) B) B.
